@@ -35,6 +35,7 @@ NoE == [k |-> "none", a |-> "", vs |-> <<>>]
 Ex(k, a) == [k |-> k, a |-> a, vs |-> <<>>]
 Lit(v) == Ex("lit", v)
 Var(n) == Ex("var", n)
+NilVar == Ex("nilvar", "")
 Ctx    == Ex("ctx", "")
 FailE  == Ex("fail", "")
 IsSetE(n) == Ex("isset", n)
@@ -125,6 +126,7 @@ Eval(e, h, c, cx) ==
                         IF v = Unset THEN [ok |-> FALSE, v |-> Nil, class |-> "identifier"]
                         ELSE [ok |-> TRUE, v |-> v, class |-> ""]
     [] e.k = "ctx"   -> [ok |-> TRUE, v |-> cx, class |-> ""]
+    [] e.k = "nilvar" -> [ok |-> TRUE, v |-> Nil, class |-> ""]       \* a variable that holds nil (not the literal nil)
     [] e.k = "fail"  -> [ok |-> FALSE, v |-> Nil, class |-> "func"]
     [] e.k = "err"   -> [ok |-> FALSE, v |-> Nil, class |-> e.a]      \* an expression failing with class e.a
     [] e.k = "isset" -> LET v == Resolve(h, c, e.a) IN
